@@ -171,6 +171,15 @@ def bootstrap_job(job, st):
     b = impl.build(desc, include_source=True, time_limit=60)
     if b[0] != 'OK' or b[1]._source_code != src1:
         bad('gen1 text not reproducible', 'differs')
+    # ... also in fresh interpreters started with other hash seeds (the text must not depend on iteration order of sets)
+    import hashlib
+    h1 = hashlib.sha1(src1.encode()).hexdigest()
+    for seed in (1, 2, 3):
+        h = impl.source_hashes_in_fresh_interpreter([desc], seed)[0]
+        res['ctr']['cases'] += 1
+        if h != h1:
+            bad('gen1 text differs in a fresh interpreter with PYTHONHASHSEED=%d' % seed, h)
+            break
     # install generation 1 the way generate_parser.py does, but in memory
     import sourcer
     import sourcer.grammar
